@@ -95,7 +95,7 @@ pub fn c04_run(ctx: &Ctx) -> i32 {
         "grammars are bounded (<= 10 nonterminals, <= 10 terminals, right-hand sides <= 6) except the repository's own kiki.kiki seed".into(),
     ];
     regress(ctx, &mut rep, "C04", c04_replay);
-    let cases = ctx.budget(160_000, 3_000_000);
+    let cases = ctx.budget(400_000, 4_000_000);
     let out = run_sharded(ctx, "C04", cases, gen::raw_grammar, c04_test);
     rep.absorb("E1-proptest", out);
     if ctx.tier == Tier::Thorough {
@@ -368,7 +368,7 @@ pub fn c17_run(ctx: &Ctx) -> i32 {
         "only grammars kiki accepts are judged (C04 decides acceptance)".into(),
     ];
     regress(ctx, &mut rep, "C17", c17_replay);
-    let cases = ctx.budget(160_000, 3_000_000);
+    let cases = ctx.budget(400_000, 4_000_000);
     let out = run_sharded(ctx, "C17", cases, gen::raw_grammar, c17_test);
     rep.absorb("E1-proptest", out);
     if ctx.tier == Tier::Thorough {
@@ -603,7 +603,7 @@ pub fn c11_run(ctx: &Ctx) -> i32 {
     let mut rep = Report::new(ctx, C11_RULE);
     rep.assumptions = vec!["reference LALR(1) = canonical LR(1) collection merged by core; grammars beyond 3000 LR(1) states are discarded and counted".into()];
     regress(ctx, &mut rep, "C11", c11_replay);
-    let cases = ctx.budget(160_000, 3_000_000);
+    let cases = ctx.budget(400_000, 4_000_000);
     let out = run_sharded(ctx, "C11", cases, gen::raw_grammar, c11_test);
     rep.absorb("E1-proptest", out);
     if ctx.tier == Tier::Thorough {
